@@ -33,6 +33,19 @@ def pre_parse(args):
     except Exception as e:
         return ['ERR', exc_kind(e)]
 
+def pre_parse_reused(args):
+    """one parser object, the same text pre-parsed under several indent sizes in turn (callers set indent_size on the object)"""
+    sizes, text = args
+    p = parser()
+    out = []
+    for size in sizes:
+        p.indent_size = size
+        try:
+            out.append(p.pre_parse(text))
+        except Exception as e:
+            out.append(['ERR', exc_kind(e)])
+    return out
+
 # what a job returns when the worker process running it dies (killed for memory, or the interpreter crashes): shaped so that both the
 # sx convention (['ERR', kind]) and the oracle tuples (r[0] .. r[4]) can be read off it
 CRASH = ['ERR', 'WorkerCrash', 0, None, None]
